@@ -521,6 +521,37 @@ func (s *Sim) Run(main func()) Outcome {
 	}
 }
 
+// Quiesce lets every goroutine that is parked at a yield run on, one at a
+// time, until none is parked or the budget is used up. No environment action
+// runs and no simulated time passes: it takes the system to a quiescent point
+// after main has returned.
+func (s *Sim) Quiesce(budget int) {
+	raceDisable()
+	defer raceEnable()
+	for i := 0; i < budget; i++ {
+		synctest.Wait()
+		s.drain()
+		var t *Task
+		for _, x := range s.all {
+			if x.parked {
+				t = x
+				break
+			}
+		}
+		if t == nil {
+			return
+		}
+		s.Step++
+		t.parked = false
+		v := 0
+		if t.sel > 1 {
+			v = s.C.Draw("select", t.sel)
+		}
+		s.note(t.Name, t.Site+" (quiesce)")
+		t.wake <- v
+	}
+}
+
 // Release switches to free-running mode: every parked goroutine continues and
 // later yields return immediately. Used for end-of-run cleanup.
 func (s *Sim) Release() {
